@@ -22,6 +22,84 @@ type FlowGraph struct {
 	idom   []int // immediate dominator by block index (-1 for entry/unreachable)
 	preds  [][]int
 	rpoNum []int
+	links  map[types.Object]boolLink // flag := x == nil / x != nil (both assigned once)
+}
+
+type boolLink struct {
+	x     types.Object
+	eqNil bool // the flag is true iff x == nil
+}
+
+// boolLinks: boolean locals defined once as `x == nil` or `x != nil` of a local x that is assigned once.
+func (fg *FlowGraph) boolLinks() map[types.Object]boolLink {
+	if fg.links != nil {
+		return fg.links
+	}
+	fg.links = map[types.Object]boolLink{}
+	ast.Inspect(fg.Body, func(n ast.Node) bool {
+		as, ok := n.(*ast.AssignStmt)
+		if !ok || len(as.Lhs) != len(as.Rhs) {
+			return true
+		}
+		for i, l := range as.Lhs {
+			id, ok := ast.Unparen(l).(*ast.Ident)
+			if !ok {
+				continue
+			}
+			be, ok := ast.Unparen(as.Rhs[i]).(*ast.BinaryExpr)
+			if !ok || (be.Op != token.EQL && be.Op != token.NEQ) {
+				continue
+			}
+			for _, side := range [][2]ast.Expr{{be.X, be.Y}, {be.Y, be.X}} {
+				xid, ok := ast.Unparen(side[0]).(*ast.Ident)
+				if !ok {
+					continue
+				}
+				if tv, ok := fg.Info.Types[side[1]]; !ok || !tv.IsNil() {
+					continue
+				}
+				b, x := fg.Info.ObjectOf(id), fg.Info.ObjectOf(xid)
+				if b != nil && x != nil && fg.assignCount(b) == 1 && fg.assignCount(x) == 1 {
+					fg.links[b] = boolLink{x, be.Op == token.EQL}
+				}
+			}
+		}
+		return true
+	})
+	return fg.links
+}
+
+// closeFacts adds what follows from the flag links: flag known ⇒ nil-ness of x known, and the reverse.
+func (fg *FlowGraph) closeFacts(m map[identFact]bool) map[identFact]bool {
+	links := fg.boolLinks()
+	if len(links) == 0 || len(m) == 0 {
+		return m
+	}
+	var out map[identFact]bool
+	set := func(k identFact, v bool) {
+		if _, ok := m[k]; ok {
+			return
+		}
+		if out == nil {
+			out = map[identFact]bool{}
+			for kk, vv := range m {
+				out[kk] = vv
+			}
+		}
+		out[k] = v
+	}
+	for b, l := range links {
+		if v, ok := m[identFact{b, false}]; ok {
+			set(identFact{l.x, true}, v == l.eqNil)
+		}
+		if isNil, ok := m[identFact{l.x, true}]; ok {
+			set(identFact{b, false}, isNil == l.eqNil)
+		}
+	}
+	if out == nil {
+		return m
+	}
+	return out
 }
 
 // Loc is a position in the graph: node Idx of block Block. Node is the
@@ -274,6 +352,8 @@ type PathQuery struct {
 	Avoid     func(l Loc) bool
 	EdgeOK    func(from *cfg.Block, succIdx int) bool
 	Correlate bool
+	// Gen (with Correlate) lets a rule add facts it can derive at a block node (p := fresh.Get(id) ⇒ p == nil).
+	Gen func(n ast.Node, facts map[identFact]bool) map[identFact]bool
 }
 
 type identFact struct {
@@ -332,6 +412,71 @@ func factsKey(m map[identFact]bool) string {
 }
 
 // killed: identifiers assigned (or address-taken) by node n.
+// eval3 evaluates a boolean expression under ident facts: '1', '0' or '?'.
+func (fg *FlowGraph) eval3(e ast.Expr, facts map[identFact]bool) byte {
+	e = ast.Unparen(e)
+	if c := boolConst(fg.Info, e); c == '1' || c == '0' {
+		return c
+	}
+	switch x := e.(type) {
+	case *ast.Ident:
+		if o := fg.Info.ObjectOf(x); o != nil {
+			if v, ok := facts[identFact{o, false}]; ok {
+				if v {
+					return '1'
+				}
+				return '0'
+			}
+		}
+	case *ast.UnaryExpr:
+		if x.Op == token.NOT {
+			switch fg.eval3(x.X, facts) {
+			case '1':
+				return '0'
+			case '0':
+				return '1'
+			}
+		}
+	case *ast.BinaryExpr:
+		switch x.Op {
+		case token.LAND:
+			l, r := fg.eval3(x.X, facts), fg.eval3(x.Y, facts)
+			if l == '0' || r == '0' {
+				return '0'
+			}
+			if l == '1' && r == '1' {
+				return '1'
+			}
+		case token.LOR:
+			l, r := fg.eval3(x.X, facts), fg.eval3(x.Y, facts)
+			if l == '1' || r == '1' {
+				return '1'
+			}
+			if l == '0' && r == '0' {
+				return '0'
+			}
+		case token.EQL, token.NEQ:
+			for _, side := range [][2]ast.Expr{{x.X, x.Y}, {x.Y, x.X}} {
+				id, ok := ast.Unparen(side[0]).(*ast.Ident)
+				if !ok {
+					continue
+				}
+				if tv, ok := fg.Info.Types[side[1]]; ok && tv.IsNil() {
+					if o := fg.Info.ObjectOf(id); o != nil {
+						if isNil, ok := facts[identFact{o, true}]; ok {
+							if isNil == (x.Op == token.EQL) {
+								return '1'
+							}
+							return '0'
+						}
+					}
+				}
+			}
+		}
+	}
+	return '?'
+}
+
 // generated adds the facts established by assignments of boolean constants or nil to identifiers
 // (flag = true; p = nil) in block node n.
 func (fg *FlowGraph) generated(n ast.Node, facts map[identFact]bool) map[identFact]bool {
@@ -366,6 +511,18 @@ func (fg *FlowGraph) generated(n ast.Node, facts map[identFact]bool) map[identFa
 		default:
 			if tv, ok := fg.Info.Types[as.Rhs[i]]; ok && tv.IsNil() {
 				set(identFact{o, true}, true)
+			} else if b, ok := fg.Info.TypeOf(as.Rhs[i]).Underlying().(*types.Basic); ok && b.Kind() == types.Bool {
+				// flag := <condition>: known if the condition is
+				cur := facts
+				if out != nil {
+					cur = out
+				}
+				switch fg.eval3(as.Rhs[i], cur) {
+				case '1':
+					set(identFact{o, false}, true)
+				case '0':
+					set(identFact{o, false}, false)
+				}
 			}
 		}
 	}
@@ -433,7 +590,7 @@ func (fg *FlowGraph) Reach(q PathQuery) (bool, []ast.Node) {
 	if q.From.Valid() {
 		startB, startI = q.From.Block, q.From.Idx+1
 		if q.Correlate {
-			facts = fg.identFacts(fg.DominatingFacts(q.From))
+			facts = fg.closeFacts(fg.identFacts(fg.DominatingFacts(q.From)))
 			// a dominating fact is only trusted for identifiers assigned at
 			// most once in the whole body (so the test cannot be stale)
 			for k := range facts {
@@ -471,6 +628,9 @@ func (fg *FlowGraph) Reach(q PathQuery) (bool, []ast.Node) {
 			if q.Correlate {
 				facts = fg.killed(b.Nodes[i], facts)
 				facts = fg.generated(b.Nodes[i], facts)
+				if q.Gen != nil {
+					facts = q.Gen(b.Nodes[i], facts)
+				}
 			}
 		}
 		for si, s := range b.Succs {
@@ -479,7 +639,21 @@ func (fg *FlowGraph) Reach(q PathQuery) (bool, []ast.Node) {
 			}
 			nf := facts
 			if q.Correlate && len(b.Succs) == 2 {
-				ef := fg.identFacts(fg.edgeFacts(b, si))
+				// the whole condition evaluated under what is known (Kleene logic): a condition known
+				// true has no false edge and vice versa
+				if cond, tag := fg.condOf(b); cond != nil && tag == nil {
+					switch fg.eval3(cond, facts) {
+					case '1':
+						if si == 1 {
+							continue
+						}
+					case '0':
+						if si == 0 {
+							continue
+						}
+					}
+				}
+				ef := fg.closeFacts(fg.identFacts(fg.edgeFacts(b, si)))
 				feasible := true
 				for k, v := range ef {
 					if old, ok := facts[k]; ok && old != v {
